@@ -264,6 +264,13 @@ func init() {
 					}
 				}
 			}
+			for kind := 4; kind <= 6; kind++ {
+				for n := 1; n <= 4; n++ {
+					for which := 0; which <= 1; which++ {
+						out = append(out, cs("H_C18_Deco", kind, n, which))
+					}
+				}
+			}
 			for _, s := range stratSpecs {
 				for ci, cfg := range s.cfgs {
 					if s.nonlin && ci > 0 && tier != "thorough" {
@@ -319,6 +326,19 @@ func init() {
 				out = append(out, c)
 			}
 			for _, s := range indSpecs {
+				// widely separated periods: buffer sizes that small grids cannot distinguish
+				for _, cfg := range s.wideConfigs() {
+					w, ok := pr.idle(s.name, cfg)
+					if !ok {
+						continue
+					}
+					for _, n := range []int{w + 2, w + 6} {
+						c := csi("H_C03", s, cfg, n, 0, 0)
+						c.SkipReach = true // no assumptions in this harness; the path condition only holds side conditions
+						c.MaxWallS = 120
+						add(c)
+					}
+				}
 				mp, _ := s.lim(o)
 				for _, cfg := range s.configs(mp) {
 					w, ok := pr.idle(s.name, cfg)
@@ -346,6 +366,9 @@ func init() {
 						}
 						if s.nin > 1 {
 							for sk := 1; sk <= 4; sk++ {
+								if s.heavy && (sk > 2 || n > w+1) && tier != "thorough" {
+									continue
+								}
 								add(csi("H_C03", s, cfg, n, 0, sk))
 							}
 						}
